@@ -69,6 +69,14 @@ func MustParse(text string) *Val {
 
 // FromAny converts a tree decoded with Decoder.UseNumber.
 func FromAny(x any) (*Val, error) {
+	v, err := fromAny(x)
+	if err == nil {
+		v.Canon()
+	}
+	return v, err
+}
+
+func fromAny(x any) (*Val, error) {
 	switch x := x.(type) {
 	case nil:
 		return &Val{K: Null}, nil
@@ -85,7 +93,7 @@ func FromAny(x any) (*Val, error) {
 	case []any:
 		v := &Val{K: Arr, A: make([]*Val, len(x))}
 		for i, e := range x {
-			c, err := FromAny(e)
+			c, err := fromAny(e)
 			if err != nil {
 				return nil, err
 			}
@@ -95,7 +103,7 @@ func FromAny(x any) (*Val, error) {
 	case map[string]any:
 		v := &Val{K: Obj, O: make(map[string]*Val, len(x))}
 		for k, e := range x {
-			c, err := FromAny(e)
+			c, err := fromAny(e)
 			if err != nil {
 				return nil, err
 			}
@@ -141,7 +149,7 @@ func (v *Val) writeCanon(b *strings.Builder) {
 			if i > 0 {
 				b.WriteByte(',')
 			}
-			e.writeCanon(b)
+			b.WriteString(e.Canon())
 		}
 		b.WriteByte(']')
 	case Obj:
@@ -152,7 +160,7 @@ func (v *Val) writeCanon(b *strings.Builder) {
 			}
 			b.WriteString(strconv.Quote(k))
 			b.WriteByte(':')
-			v.O[k].writeCanon(b)
+			b.WriteString(v.O[k].Canon())
 		}
 		b.WriteByte('}')
 	}
